@@ -279,6 +279,8 @@ func (r *mxRunner) Step(line string) []string {
 		return []string{r.write(a)}
 	case "snap":
 		return r.snap()
+	case "close":
+		return []string{r.closeOp()}
 	case "gethint":
 		return []string{r.getHint(int(atoi64(a["s"])))}
 	case "req":
@@ -287,6 +289,28 @@ func (r *mxRunner) Step(line string) []string {
 		return []string{r.reqrel(a)}
 	}
 	return []string{"bad-op"}
+}
+
+// closeOp: Muxer.Close, then what is left in Directory (C07: "every file the muxer created has been removed").
+func (r *mxRunner) closeOp() string {
+	if !r.started {
+		return "bad-op"
+	}
+	r.m.Close()
+	r.started = false
+	if r.dir == "" {
+		return "closed files=-"
+	}
+	ents, _ := os.ReadDir(r.dir)
+	var files []string
+	for _, e := range ents {
+		files = append(files, r.canonKey(e.Name()))
+	}
+	sort.Slice(files, func(i, j int) bool { return keyLess(files[i], files[j]) })
+	if len(files) != 0 {
+		r.failf("C07 files left in Directory after Close: %v", files)
+	}
+	return "closed files=" + strings.Join(files, " ")
 }
 
 func (r *mxRunner) begin() string {
